@@ -63,16 +63,21 @@ pub fn generate(tape: &[u8]) -> WeakProgram {
     // ephemeron chains: every key except the first is reachable ONLY through the value of another
     // WeakMap entry; entries are inserted in a tape-chosen order (the collector needs several
     // rounds of its ephemeron fix-point to keep them all)
-    let chain_len = t.below(6);
+    let chain_len = [0usize, 3, 4, 5, 6, 2][t.below(6)];
     if chain_len >= 2 {
         s.push_str("  var chainMaps = [new WeakMap(), new WeakMap()];\n  var c0 = { name: 'c0' }; keep.push(c0); refs.chainHead = c0; refs.chainMaps = chainMaps;\n");
         for i in 1..chain_len {
             s.push_str(&format!("  var c{i} = {{ name: 'c{i}' }};\n"));
         }
         let mut order: Vec<usize> = (0..chain_len).collect();
-        for i in (1..order.len()).rev() {
-            let j = t.below(i + 1);
-            order.swap(i, j);
+        if t.bool() {
+            // reverse chain order: every entry is allocated before the entry that keeps its key alive
+            order.reverse();
+        } else {
+            for i in (1..order.len()).rev() {
+                let j = t.below(i + 1);
+                order.swap(i, j);
+            }
         }
         for i in order {
             let m = t.below(2);
@@ -98,7 +103,7 @@ pub fn generate(tape: &[u8]) -> WeakProgram {
             }
         }
         if chain_len >= 2 {
-            s.push_str("  var cur = refs.chainHead, names = [];\n  for (var step = 0; step < 8 && typeof cur === 'object' && cur !== null; step++) { names.push(cur.name); cur = refs.chainMaps[0].has(cur) ? refs.chainMaps[0].get(cur) : refs.chainMaps[1].get(cur); }\n  print('chain', names.join('>'), show(cur));\n");
+            s.push_str("  var cur = refs.chainHead, names = [];\n  for (var step = 0; step < 8 && typeof cur === 'object' && cur !== null; step++) { names.push(cur.name); cur = refs.chainMaps[0].has(cur) ? refs.chainMaps[0].get(cur) : refs.chainMaps[1].get(cur); }\n  print('chain', names.join('>'), String(cur));\n");
         }
         s.push_str(&format!("  print('job {j}', keep.length, junk.length);\n}});\n"));
     }
